@@ -8,7 +8,7 @@ from ..canon import Snap, problem_diff
 from .c10 import add_dicts, variant_forms
 
 PROPERTY = 'C11'
-CASES = {'quick': 156, 'thorough': 3000}
+CASES = {'quick': 468, 'thorough': 3744}
 BUDGET_S = {'quick': 240, 'thorough': 2400}
 RULE = ('case = one portfolio (every asset class incl. Scaled, Structured, Linked, CHP variants, OrderBook as dict or DataFrame; parameters as '
         'scalars, interval dictionaries of lists / numpy arrays / DatetimeIndex, date vs datetime vs Timestamp, naive and zone-aware grids), saved '
@@ -17,7 +17,7 @@ RULE = ('case = one portfolio (every asset class incl. Scaled, Structured, Linke
         'as a freshly built one for the original grid/prices and a second random grid/prices; a portfolio\'s own grid comes back with the same points, '
         'zone and step lengths. Non-trivial: portfolio with >=3 assets; distinct = spec hashes.')
 ASSUMPTIONS = ['problems are compared exactly incl. mapping', 'the second (grid, prices) pair may be rejected by domain assertions identically for both objects (counted, no claim)']
-MIN_NONVACUOUS = {'quick': {'json.load_succeeds': 400, 'json.resave_identical': 400, 'json.same_problem_after_load': 250, 'json.grid_preserved': 60},
+MIN_NONVACUOUS = {'quick': {'json.load_succeeds': 1000, 'json.resave_identical': 1000, 'json.same_problem_after_load': 625, 'json.grid_preserved': 150},
                   'thorough': {'json.load_succeeds': 8000, 'json.same_problem_after_load': 5000, 'json.grid_preserved': 1000}}
 
 
